@@ -128,6 +128,11 @@ CFG = {
         "Swat4.C07.details_params_nodup",
         "Swat4.C07.detailsOf_encode",
     ],
+    # proved in the Lean files (and built with the module) but NOT audited as property theorems: each is a read-back of a
+    # definition, glue between two names, true by type, or a restatement of an audited theorem
+    "supporting": [
+        {"name": "Swat4.C07.detailsOf_total", "why": "true by type: `DetailsProbe.Outcome` has exactly the three constructors the statement lists (proof = cases); cited by probe_classes"},
+    ],
     "shards": (8, 16),
     "nontrivial": _c07_nontrivial,
     "extra_evidence": _c07_extra,
